@@ -379,13 +379,13 @@ func (c *Ctx) ruleR13c(rule string) {
 	bad := foreignGuards(sc.Block(), func(cd ssax.Cond) bool {
 		// interpreter != nil, or the comma-ok of the type switch on the interpreter field
 		if x, _, isNT := nilTest(cd.Val); isNT {
-			if _, f, ok := fieldLoad(x); ok && f == "interpreter" {
+			if _, f, ok := fieldLoad(x); ok && f == c.model().NTInterp {
 				return true
 			}
 		}
 		if e, ok := cd.Val.(*ssa.Extract); ok {
 			if ta, ok := e.Tuple.(*ssa.TypeAssert); ok {
-				if _, f, ok := fieldLoad(ta.X); ok && f == "interpreter" {
+				if _, f, ok := fieldLoad(ta.X); ok && f == c.model().NTInterp {
 					return true
 				}
 			}
@@ -406,7 +406,7 @@ func (c *Ctx) ruleR13c(rule string) {
 				continue
 			}
 			fa, ok := st.Addr.(*ssa.FieldAddr)
-			if !ok || fieldVar(fa) == nil || fieldVar(fa).Name() != "schema" {
+			if !ok || fieldVar(fa) == nil || fieldVar(fa).Name() != c.model().NTSchema {
 				continue
 			}
 			n++
@@ -468,7 +468,7 @@ func (c *Ctx) ruleR13d(rule string) {
 	var idx ssa.Value
 	if u, ok := lc.Call.Args[1].(*ssa.UnOp); ok && u.Op == token.MUL && lc.Call.Args[0] == ssa.Value(uctx) {
 		if ia, ok := u.X.(*ssa.IndexAddr); ok {
-			if base, f, ok := fieldLoad(ia.X); ok && f == "children" && base == ssa.Value(recv) && isFullRangeIndex(ia.Index, ia.X) {
+			if base, f, ok := fieldLoad(ia.X); ok && f == c.model().NTChildren && base == ssa.Value(recv) && isFullRangeIndex(ia.Index, ia.X) {
 				okArg = true
 				idx = ia.Index
 			}
@@ -481,7 +481,7 @@ func (c *Ctx) ruleR13d(rule string) {
 		for _, r := range *e.Referrers() {
 			if st, ok := r.(*ssa.Store); ok {
 				if ia, ok := st.Addr.(*ssa.IndexAddr); ok && ia.Index == idx {
-					if base, f, ok := fieldLoad(ia.X); ok && f == "children" && base == ssa.Value(recv) {
+					if base, f, ok := fieldLoad(ia.X); ok && f == c.model().NTChildren && base == ssa.Value(recv) {
 						okStore = true
 					}
 				}
@@ -569,7 +569,7 @@ func (c *Ctx) ruleR13e(rule string) {
 			continue
 		}
 		_, f, isLoad := fieldLoad(cl.Call.Value)
-		if isLoad && f == "interpreter" && len(cl.Call.Args) == 2 && cl.Call.Args[0] == ssa.Value(fn.Params[1]) && ssax.Strip(cl.Call.Args[1]) == ssa.Value(fn.Params[0]) {
+		if isLoad && f == c.model().NTInterp && len(cl.Call.Args) == 2 && cl.Call.Args[0] == ssa.Value(fn.Params[1]) && ssax.Strip(cl.Call.Args[1]) == ssa.Value(fn.Params[0]) {
 			for _, r := range ssax.Returns(fn) {
 				if isExtractOf(r.Results[0], cl, 0) && isExtractOf(r.Results[1], cl, 1) {
 					ok = true
